@@ -4,9 +4,11 @@
   release   with C: L.remove(K) ; C.notify() / C.notify_all()
   try-claim with C: if K in L: raise X
 
-(logging statements are ignored).  C must be an attribute the constructor binds to a
-``*.Condition(...)``.  Everything that deviates from these shapes is recorded as an anomaly
-for the C07/C08/C12 rules rather than silently accepted."""
+(logging statements are ignored).  C must denote an attribute the constructor binds to a
+``*.Condition(...)`` — either written as ``self.<attr>`` or, when the interpreter supplies a
+resolver, a local that can only hold such attributes (``cond, locked = self._pid_sync()``).
+Everything that deviates from these shapes is recorded as an anomaly for the C07/C08/C12
+rules rather than silently accepted."""
 
 from __future__ import annotations
 
@@ -76,127 +78,164 @@ class SyncTable:
         return sorted({stem(a) for a in self.lists})
 
 
+def _name(aset):
+    return "/".join(sorted(aset)) if aset else None
+
+
+def _common(aset, fn):
+    vals = {fn(a) for a in aset} if aset else set()
+    return vals.pop() if len(vals) == 1 else None
+
+
 class LockOp:
     def __init__(self, node, func):
         self.node = node
         self.func = func
         self.kind = "unknown"  # acquire / release / tryclaim / unknown
-        self.cond = None  # condition attr
-        self.list = None  # claim list attr (of append / remove / membership)
+        self.cond_set = None  # condition attrs the `with` may be on
+        self.list_set = None  # claim list attrs (of append / remove / membership)
         self.key = None  # ast expr appended / removed / tested
         self.wait_key = None
-        self.wait_list = None
-        self.wait_cond = None
-        self.notify_cond = None
+        self.wait_list_set = None
+        self.wait_cond_set = None
+        self.notify_cond_set = None
         self.raise_node = None
+        self.dynamic = False
         self.anomalies = []  # (code, message, node)
 
     @property
+    def cond(self):
+        return _name(self.cond_set)
+
+    @property
+    def list(self):
+        return _name(self.list_set)
+
+    @property
+    def wait_list(self):
+        return _name(self.wait_list_set)
+
+    @property
+    def wait_cond(self):
+        return _name(self.wait_cond_set)
+
+    @property
+    def notify_cond(self):
+        return _name(self.notify_cond_set)
+
+    @property
     def cls(self):
-        return stem(self.list) if self.list else None
+        return _common(self.list_set, stem) if self.list_set else None
 
     @property
     def mode(self):
-        return suffix(self.cond) if self.cond else None
+        return _common(self.cond_set, suffix) if self.cond_set else None
 
     def __repr__(self):
         return f"<LockOp {self.kind} {self.cls} key={ast.unparse(self.key) if self.key is not None else None} @{self.node.lineno}>"
 
 
-def _membership(test):
-    """K in self.L  -> (K, L) ; K not in self.L -> (K, L, negated)"""
-    if isinstance(test, ast.Compare) and len(test.ops) == 1 and isinstance(test.ops[0], (ast.In, ast.NotIn)):
-        l = self_attr(test.comparators[0])
-        if l is not None:
-            return test.left, l, isinstance(test.ops[0], ast.NotIn)
-    return None
+def match_with(with_node: ast.With, func, sync: SyncTable, resolve=None):
+    """Return a LockOp when the `with` is on a condition attribute, else None.
+    `resolve(node)` may map a non-`self.x` expression to the set of attributes it can denote."""
 
+    def attrs(node):
+        a = self_attr(node)
+        if a is not None:
+            return frozenset([a])
+        if resolve is not None:
+            r = resolve(node)
+            if r:
+                return frozenset(r)
+        return None
 
-def _method_call(st, names):
-    """Expr statement `self.X.m(args)` with m in names -> (X, m, args)"""
-    if isinstance(st, ast.Expr) and isinstance(st.value, ast.Call) and isinstance(st.value.func, ast.Attribute):
-        f = st.value.func
-        if f.attr in names:
-            x = self_attr(f.value)
-            if x is not None:
-                return x, f.attr, st.value.args
-    return None
-
-
-def match_with(with_node: ast.With, func, sync: SyncTable):
-    """Return a LockOp when the `with` is on a condition attribute, else None."""
     if len(with_node.items) != 1:
         return None
-    cond = self_attr(with_node.items[0].context_expr)
-    if cond is None or cond not in sync.conditions:
-        # a with on a *lock* attribute is not one of the repository's shapes
-        if cond is not None and cond in sync.locks:
+    cset = attrs(with_node.items[0].context_expr)
+    if not cset:
+        return None
+    if not all(c in sync.conditions for c in cset):
+        if all(c in sync.locks for c in cset):
             op = LockOp(with_node, func)
-            op.cond = cond
-            op.anomalies.append(("raw-lock", f"`with self.{cond}` uses a bare lock, not the claim-list idiom", with_node))
+            op.cond_set = cset
+            op.anomalies.append(("raw-lock", f"`with self.{_name(cset)}` uses a bare lock, not the claim-list idiom", with_node))
             return op
         return None
     op = LockOp(with_node, func)
-    op.cond = cond
-    appended = removed = False
-    seen_remove_before_notify = False
+    op.cond_set = cset
+    op.dynamic = self_attr(with_node.items[0].context_expr) is None
+
+    def membership(test):
+        if isinstance(test, ast.Compare) and len(test.ops) == 1 and isinstance(test.ops[0], (ast.In, ast.NotIn)):
+            l = attrs(test.comparators[0])
+            if l and all(x in sync.lists for x in l):
+                return test.left, l, isinstance(test.ops[0], ast.NotIn)
+        return None
+
+    def method_call(st, names):
+        if isinstance(st, ast.Expr) and isinstance(st.value, ast.Call) and isinstance(st.value.func, ast.Attribute):
+            f = st.value.func
+            if f.attr in names:
+                x = attrs(f.value)
+                if x:
+                    return x, f.attr, st.value.args
+        return None
+
+    seen_remove = False
     for st in with_node.body:
         if is_logging_stmt(st):
             continue
         if isinstance(st, ast.While):
-            mem = _membership(st.test)
+            mem = membership(st.test)
             if mem is None or mem[2]:
                 op.anomalies.append(("foreign", "while loop under the condition's mutex is not a claim wait loop", st))
                 continue
-            op.wait_key, op.wait_list = mem[0], mem[1]
+            op.wait_key, op.wait_list_set = mem[0], mem[1]
             waited = False
             for b in st.body:
                 if is_logging_stmt(b):
                     continue
-                mc = _method_call(b, ("wait",))
+                mc = method_call(b, ("wait",))
                 if mc:
                     waited = True
-                    op.wait_cond = mc[0]
-                    if mc[0] != cond:
-                        op.anomalies.append(("wait-other-cond", f"waits on self.{mc[0]} while holding self.{cond}", b))
+                    op.wait_cond_set = mc[0]
+                    if mc[0] != cset:
+                        op.anomalies.append(("wait-other-cond", f"waits on self.{_name(mc[0])} while holding self.{_name(cset)}", b))
                 else:
                     op.anomalies.append(("foreign", "statement in wait loop is neither logging nor wait()", b))
             if not waited or st.orelse:
                 op.anomalies.append(("no-wait", "claim loop does not wait()", st))
             continue
         if isinstance(st, ast.If):
-            mem = _membership(st.test)
+            mem = membership(st.test)
             body = [b for b in st.body if not is_logging_stmt(b)]
             if mem and not mem[2] and body and isinstance(body[-1], ast.Raise) and len(body) == 1 and not st.orelse:
                 op.kind = "tryclaim"
-                op.key, op.list = mem[0], mem[1]
+                op.key, op.list_set = mem[0], mem[1]
                 op.raise_node = body[-1]
                 continue
-            if mem and any(_method_call(b, ("wait",)) for b in body):
-                # `if K in L: wait()` — wait without re-check
-                op.wait_key, op.wait_list = mem[0], mem[1]
-                op.wait_cond = cond
+            if mem and any(method_call(b, ("wait",)) for b in body):
+                op.wait_key, op.wait_list_set = mem[0], mem[1]
+                op.wait_cond_set = cset
                 op.anomalies.append(("wait-not-loop", "wait() guarded by `if`, not re-checked in a `while` loop", st))
                 continue
             op.anomalies.append(("foreign", "if statement under the condition's mutex is not a try-claim", st))
             continue
-        mc = _method_call(st, ("append", "remove", "notify", "notify_all", "wait"))
+        mc = method_call(st, ("append", "remove", "notify", "notify_all", "wait"))
         if mc:
             x, m, args = mc
             if m == "append":
-                appended = True
                 op.kind = "acquire"
-                op.list, op.key = x, (args[0] if args else None)
+                op.list_set, op.key = x, (args[0] if args else None)
             elif m == "remove":
-                removed = True
-                seen_remove_before_notify = True
+                seen_remove = True
                 op.kind = "release"
-                op.list, op.key = x, (args[0] if args else None)
+                op.list_set, op.key = x, (args[0] if args else None)
             elif m in ("notify", "notify_all"):
-                op.notify_cond = x
-                if x != cond:
-                    op.anomalies.append(("notify-other-cond", f"notifies self.{x} while holding self.{cond}", st))
-                if not seen_remove_before_notify:
+                op.notify_cond_set = x
+                if x != cset:
+                    op.anomalies.append(("notify-other-cond", f"notifies self.{_name(x)} while holding self.{_name(cset)}", st))
+                if not seen_remove:
                     op.anomalies.append(("notify-before-remove", "notify() precedes remove()", st))
             elif m == "wait":
                 op.anomalies.append(("wait-not-loop", "wait() outside a `while K in L` loop", st))
@@ -210,17 +249,23 @@ def match_with(with_node: ast.With, func, sync: SyncTable):
                 op.anomalies.append(
                     ("wait-key-differs",
                      f"waits while `{ast.unparse(op.wait_key)}` is claimed but claims `{ast.unparse(op.key)}`", with_node))
-            if op.wait_list != op.list:
+            if op.wait_list_set != op.list_set:
                 op.anomalies.append(
                     ("wait-list-differs", f"waits on self.{op.wait_list} but appends to self.{op.list}", with_node))
     if op.kind == "release":
-        if op.notify_cond is None:
+        if op.notify_cond_set is None:
             op.anomalies.append(("no-notify", "release does not notify the condition", with_node))
-    if op.kind in ("acquire", "release", "tryclaim") and op.list is not None:
-        if suffix(op.list) != suffix(cond):
-            op.anomalies.append(("mode-mix", f"self.{op.list} used under self.{cond} (different synchronisation mode)", with_node))
-        if op.list not in sync.lists:
+    if op.kind in ("acquire", "release", "tryclaim") and op.list_set is not None:
+        ls, cs = {suffix(a) for a in op.list_set}, {suffix(a) for a in cset}
+        if ls != cs:
+            op.anomalies.append(("mode-mix", f"self.{op.list} used under self.{op.cond} (different synchronisation mode)", with_node))
+        if not all(a in sync.lists for a in op.list_set):
             op.anomalies.append(("unknown-list", f"self.{op.list} is not a claim list created by the constructor", with_node))
+        if op.cls is None:
+            op.anomalies.append(("mixed-class", f"claim lists of different classes used together: self.{op.list}", with_node))
+        # the condition and the list must belong together (same constructor group)
+        if _common(cset, stem) is None:
+            op.anomalies.append(("mixed-class", f"conditions of different classes used together: self.{op.cond}", with_node))
     return op
 
 
@@ -231,7 +276,6 @@ def all_lockops(program, sync: SyncTable, cls="FileHashStore"):
             continue
         for n in ast.walk(f.node):
             if isinstance(n, ast.With):
-                # only the function that lexically owns the with
                 owner = n
                 while owner is not None and not isinstance(owner, (ast.FunctionDef, ast.AsyncFunctionDef)):
                     owner = getattr(owner, "_parent", None)
